@@ -2,6 +2,7 @@ SPECIFICATION Spec
 CONSTANTS
   ClosesPipeOnBuildError = TRUE
   ClosesFilesOnParamsError = TRUE
+  CopyMarksEndSeen = FALSE
   CancelsBeforeClose = FALSE
   ClosesFilesOnFieldError = TRUE
   ZeroLenReadSetsEOF = TRUE
